@@ -159,11 +159,11 @@ def c03(ctx):
 def c04(ctx):
     load_replay(ctx)
     ctx.model_selfcheck()
-    W, R, NL = ctx.q((20, 1, 40), (60, 2, 150))
+    W, R, NL = ctx.q((20, 1, 40), (70, 3, 300))
     builds = build_set(ctx, ctx.q(["prod", "gcc-O2", "asan-gcc"], ["prod", "gcc-O2", "gcc-O3", "clang-O2", "clang-O3", "asan-gcc", "asan-clang"]))
     run_harness_on(ctx, "h_aead.c", builds, ["--mode", "zero,both", "--p1", W, "--p2", R, "--p3", NL], 16, timeout=3000)
     # dense length sweep 0..300 on the production object: one tag flip per length per variant
-    run_harness_on(ctx, "h_aead.c", build_set(ctx, ["prod"]), ["--mode", "zero,both,sweep", "--p1", 0, "--p2", 1, "--p3", ctx.q(300, 1200)], 8,
+    run_harness_on(ctx, "h_aead.c", build_set(ctx, ["prod"]), ["--mode", "zero,both,sweep", "--p1", 0, "--p2", 1, "--p3", ctx.q(300, 4000)], 8,
                    hname="h_aead-sweep")
     ctx.rule = AEAD_RULE + (" All 6 variants; per packet up to 12 tamper sites (each tag byte, body, nonce, key, AD length), in place and "
                             "out of place, output region pre-filled with recorded non-zero junk; after every rejection every byte of "
@@ -272,7 +272,7 @@ def run_hash(ctx, builds, args, nb, hname, timeout=1800):
 def c10(ctx):
     load_replay(ctx)
     ctx.model_selfcheck()
-    N, reps, NL = ctx.q((200, 1, 24), (600, 4, 200))
+    N, reps, NL = ctx.q((200, 1, 24), (1500, 6, 400))
     builds = build_set(ctx, ctx.q(["prod", "gcc-O0", "gcc-O2", "clang-O2", "clang-O3", "asan-gcc", "msan"],
                                   ["prod"] + MATRIX + ["asan-gcc", "asan-clang", "msan"]))
     run_hash(ctx, builds, ["--mode", "hash", "--p1", N, "--p2", reps, "--p3", NL], ctx.q(4, 16), "h_hash")
@@ -304,7 +304,7 @@ def c11(ctx):
 def c12(ctx):
     load_replay(ctx)
     ctx.model_selfcheck()
-    K, NR = ctx.q((200, 150), (260, 3000))
+    K, NR = ctx.q((200, 150), (400, 20000))
     builds = build_set(ctx, ctx.q(["prod", "gcc-O2", "asan-gcc", "msan"], ["prod"] + MATRIX + ["asan-gcc", "asan-clang", "msan"]))
     run_hash(ctx, builds, ["--mode", "hmac", "--p1", K, "--p3", NR], ctx.q(8, 16), "h_hash-m")
     ctx.rule = ("every key length 0..K (NULL for 0 in half the cases) x message lengths {0,1,15,16,17,31,32,33,63,64,65,127,128,200} + random "
@@ -319,7 +319,7 @@ def c12(ctx):
 def c13(ctx):
     load_replay(ctx)
     ctx.model_selfcheck()
-    NS = ctx.q(160, 1600)
+    NS = ctx.q(160, 3200)
     builds = build_set(ctx, ctx.q(["prod", "asan-gcc", "msan"], ["prod", "gcc-O0", "gcc-O2", "clang-O3", "asan-gcc", "asan-clang", "msan"]))
     run_harness_on(ctx, "h_kdf.c", builds, ["--mode", "hkdf", "--p1", NS], 16, timeout=3000)
     ctx.rule = ("one case = one (key, salt, info) stream: lengths from {0(NULL),1,31,32,33,64,65,100}^3 (first 512 indices, enumerated) then random; "
@@ -335,7 +335,7 @@ def c13(ctx):
 def c14(ctx):
     load_replay(ctx)
     ctx.model_selfcheck()
-    D, NR = ctx.q((100, 150), (160, 4000))
+    D, NR = ctx.q((100, 150), (200, 12000))
     builds = build_set(ctx, ctx.q(["prod", "asan-gcc", "msan"], ["prod", "gcc-O0", "gcc-O2", "clang-O3", "asan-gcc", "asan-clang", "msan"]))
     run_harness_on(ctx, "h_kdf.c", builds, ["--mode", "pbkdf2", "--p1", D, "--p3", NR], 16, timeout=3000)
     ctx.rule = ("every outlen 0..D with password lengths {0,1,63,64,65,100,200}, salt lengths 0..40 and counts {0,1,2,3,4,5,10} rotating; "
@@ -393,7 +393,7 @@ def c16(ctx):
 def c17(ctx):
     load_replay(ctx)
     ctx.model_selfcheck()
-    NR = ctx.q(300, 20000)
+    NR = ctx.q(300, 100000)
     builds = build_set(ctx, ctx.q(["prod", "asan-gcc"], ["prod", "gcc-O0", "gcc-O2", "clang-O3", "asan-gcc", "asan-clang"]))
     run_harness_on(ctx, "h_prng.c", builds, ["--mode", "faults", "--p3", NR], 16, timeout=3000, hname="h_prng-f")
     if not ctx.replay and ctx.stats.get("null_callback_child_runs", 0) < 6:
@@ -421,7 +421,7 @@ def c18(ctx):
     import re, subprocess
     load_replay(ctx)
     ctx.model_selfcheck()
-    K = ctx.q(8, 10)
+    K = ctx.q(8, 12)
     pre = os.path.join(ctx.scratch, "no_sys_getrandom.h")
     with open(pre, "w") as f:
         f.write("#include <sys/syscall.h>\n#undef SYS_getrandom\n")
@@ -513,7 +513,7 @@ def c20(ctx):
     import subprocess
     from concurrent.futures import ThreadPoolExecutor
     load_replay(ctx)
-    NF, NC = ctx.q((6000, 300), (60000, 600))
+    NF, NC = ctx.q((6000, 300), (200000, 1000))
     cfg_bz = ctx.make_config("bzero", BASE_CFG + ["HAVE_GETRANDOM"])
     cfg_fb = ctx.make_config("fallback", [m for m in BASE_CFG if m != "HAVE_EXPLICIT_BZERO"] + ["HAVE_GETRANDOM"])
     opts = ctx.q(["-O2"], ["-O0", "-O1", "-O2", "-O3", "-Os"])
@@ -624,7 +624,7 @@ def parse_tsan_logs(ctx, prefix, tag):
 def c19(ctx):
     import subprocess, re
     load_replay(ctx)
-    N, T, reps = ctx.q((1400, 16, 2), (2800, 16, 6))
+    N, T, reps = ctx.q((1400, 16, 2), (2800, 16, 10))
     p = ctx.prod()
     # ---- monitor 1: TSan differential stress
     tsan_builds = [("tsan-gcc", "gcc"), ("tsan-clang", "clang")] if (ctx.thorough or True) else []
@@ -633,7 +633,7 @@ def c19(ctx):
         fl = ["-O1"] + core.SAN_TSAN
         lib = ctx.lib(tag, cc, fl)
         exe = ctx.harness("h_conc-" + tag, "h_conc.c", lib, cc=cc, flags=fl, with_model=False)
-        for tt in ([T] if not ctx.thorough else [2, 4, 16, 64]):
+        for tt in ([T] if not ctx.thorough else [2, 4, 16, 32, 64]):
             logp = os.path.join(ctx.scratch, "tsanlog-%s-%d" % (tag, tt))
             for j in batch_jobs(ctx, exe, tag, ["--mode", "stress", "--p1", N, "--p2", tt, "--p3", reps], 1):
                 j["env"] = {"TSAN_OPTIONS": "halt_on_error=0:exitcode=0:log_path=%s:second_deadlock_stack=1" % logp}
@@ -767,7 +767,7 @@ def run_valgrind(ctx, jobs, timeout=3000):
 @check("C06", "exploration", floor=2000)
 def c06(ctx):
     load_replay(ctx)
-    W, NL = ctx.q((12, 7), (34, 28))
+    W, NL = ctx.q((12, 7), (48, 42))
     names = ctx.q(["prod", "gcc-O2", "asan-gcc", "asan-clang", "msan"], ["prod", "gcc-O0", "gcc-O2", "gcc-O3", "clang-O2", "clang-O3", "asan-gcc", "asan-clang", "asan-gcc-O3", "msan"])
     builds = build_set(ctx, names)
     jobs = []
@@ -778,7 +778,7 @@ def c06(ctx):
     # valgrind memcheck on the production objects: outputs/states/dead stack marked undefined before each call
     p = ctx.prod()
     exe = ctx.harness("h_mem-prod-vg", "h_mem.c", {"static": p["static"]}, cc="gcc", with_model=False, defs=["VERIF_VALGRIND"])
-    run_valgrind(ctx, valgrind_jobs(ctx, exe, "prod-cmake-Release+memcheck", ["--mode", "all", "--p1", ctx.q(5, 16), "--p3", ctx.q(0, 7)], 16))
+    run_valgrind(ctx, valgrind_jobs(ctx, exe, "prod-cmake-Release+memcheck", ["--mode", "all", "--p1", ctx.q(5, 24), "--p3", ctx.q(0, 7)], 16))
     ctx.rule = ("contract workload over the whole public API: 6 AEAD/SIV variants x (adlen, mlen) in [0..W]^2 (separate / encrypt-in-place / decrypt-in-place, "
                 "accepted and rejected packets), tinyjambu_hash 0..300 (quick 120), incremental hash with chunk schedules, HMAC key lengths 0..200 x 9 message "
                 "lengths one-shot and incremental (reinit), HKDF one-shot 0..200 + every 32k-1/32k/32k+1 up to 8160 + {8159,8160,8161,8192,65536,SIZE_MAX} and "
@@ -984,7 +984,7 @@ def c05(ctx):
         raise core.Inconclusive("interpreter self-test failed: " + st.stdout.decode() + st.stderr.decode()[-800:])
     ctx.assumptions.append("interpreters: " + st.stdout.decode().strip())
     # ---- monitor 1: portable C backend, natively, on every build
-    NR = ctx.q(40, 2000)
+    NR = ctx.q(40, 5000)
     builds = build_set(ctx, ctx.q(["prod", "gcc-O0", "gcc-O2", "clang-O3", "asan-gcc"], ["prod"] + MATRIX + ["asan-gcc", "asan-clang"]))
     if not ctx.replay or (ctx.replay.get("build") or "").split("/")[0] not in EMU_TARGETS + ["llvm"]:
         run_harness_on(ctx, "h_perm.c", builds, ["--p1", NR], ctx.q(2, 16))
@@ -1042,7 +1042,7 @@ def c05(ctx):
                 "(24 .S files, the Xtensa files under both ABIs) preprocessed with the macro set that selects them and executed instruction by instruction in "
                 "interpreters with monitors for result == bit-serial spec, write set, read set, alignment, callee-saved registers, stack pointer, return address, "
                 "encodability (Thumb-1, RV32E register file), data-independent instruction trace per round count. quick: all structured inputs at 3 rounds + 6 random "
-                "inputs for each of {1,2,3,5,8,9,10,20,24} rounds; thorough: all structured inputs and 80 random ones for every round count 1..24. For ARM/Thumb/RISC-V "
+                "inputs for each of {1,2,3,5,8,9,10,20,24} rounds; thorough: all structured inputs and 300 random ones for every round count 1..24. For ARM/Thumb/RISC-V "
                 "the files are also assembled with LLVM 14 and LLVM's disassembly is executed under the same monitors (independent decode); AVR is assemble-only. "
                 "Generated files: the 3 generator directories are rebuilt with their own Makefiles (plain and ASan/UBSan) and the 21 outputs compared byte for byte. "
                 "class = (program, rounds, input family, input index) | native (key size, rounds, input) | generator rule.")
